@@ -146,6 +146,11 @@ def _corruption_control(ck, exe, wd):
              ("dropped leaf", lambda ev: ev["e"] == "QLeaves" and ev["rows"], drop_leaf),
              ("attached object", lambda ev: ev["e"] in ("AddSon", "SetFather", "Link") and ev["s"]["eo"], flip_obj)]
     mod, cfg = _module("tree")
+    n_ev, rej, st = vc.validate_trace(SPEC, mod, cfg, base, parallel=1)
+    if rej:                      # the implementation itself misbehaves on the base scenarios: report that, skip the control
+        ck.handle_rejections(rej, _sig("tree"), tag="cb")
+        ck.extra["corrupted_trace_control"] = ["skipped: the uncorrupted base trace is already rejected"]
+        return
     res = []
     for k, (what, pred, mut) in enumerate(cases):
         i = first(pred)
@@ -160,9 +165,6 @@ def _corruption_control(ck, exe, wd):
         if not rej:
             raise vc.MachineryError("corruption control: a trace with a flipped %s (event %d) was accepted" % (what, i))
         res.append("%s at event %d: rejected at event %d (%s)" % (what, i, rej[0].index, rej[0].invariant or "no step"))
-    n_ev, rej, st = vc.validate_trace(SPEC, mod, cfg, base, parallel=1)
-    if rej:
-        raise vc.MachineryError("corruption control: the uncorrupted base trace is rejected (run the check for details)")
     os.remove(base)
     ck.extra["corrupted_trace_control"] = res
 
